@@ -179,6 +179,34 @@ def judge_recovery(a, fs, state, variant, res, label, replay, fix_args=()):
                             retimed.add((d_, sub_))
             except OSError:
                 pass
+    # reduced hash sizes: a damaged block whose truncated hash happens to equal the recorded one cannot be told from the
+    # synced data (documented limitation of hashsize < 16, about 1 in 65536 damaged blocks with 2 bytes): such files are
+    # screened out with the frozen reference hash, as the stripe plans already do when they choose what to damage
+    collided = set()
+    try:
+        c_pre = a.load_content()
+        if c_pre.hashsize < 16:
+            from .. import dmg as _dmg
+            n2i_ = {nm.encode(): i for i, nm in enumerate(a.disk_names)}
+            for f_ in c_pre.files:
+                d_ = n2i_[c_pre.disk_name(f_.disk)]
+                e_ = state.get(d_, {}).get(f_.sub)
+                if e_ is None or e_[0] != "file":
+                    continue
+                try:
+                    with open(fs.path(d_, f_.sub), "rb") as fh_:
+                        disk_ = fh_.read()
+                except OSError:
+                    continue
+                for i_ in range(len(f_.blocks)):
+                    blk_ = disk_[i_ * c_pre.blocksize:(i_ + 1) * c_pre.blocksize]
+                    if blk_ and blk_ != e_[1][i_ * c_pre.blocksize:(i_ + 1) * c_pre.blocksize] and _dmg.recorded_hash_matches(c_pre, f_, i_, blk_):
+                        collided.add((d_, f_.sub))
+                        break
+    except Exception:
+        pass
+    if collided:
+        res["counters"]["files_with_damage_hidden_by_a_truncated_hash_collision"] = res["counters"].get("files_with_damage_hidden_by_a_truncated_hash_collision", 0) + len(collided)
     r = a.cmd("fix", *fix_args, variant=variant)
     res["counters"]["fix_runs"] = res["counters"].get("fix_runs", 0) + 1
     for s in r.san:
@@ -203,6 +231,28 @@ def judge_recovery(a, fs, state, variant, res, label, replay, fix_args=()):
         return False
     probs = scen.verify_tree(a, fs, state, allow_extra=True)
     probs = [p for p in probs if not (p["what"] == "mtime differs" and (p["disk"], p["sub"]) in retimed)]
+    probs = [p for p in probs if not (p["what"] in ("content differs", "mtime differs") and (p["disk"], p["sub"]) in collided)]
+    try:
+        if probs and c_pre.hashsize < 16:
+            # ... and a block REBUILT from a damaged parity block can pass the truncated hash the same way
+            keep = []
+            for p_ in probs:
+                rec_ = [f_ for f_ in c_pre.files if f_.sub == p_["sub"] and n2i_[c_pre.disk_name(f_.disk)] == p_["disk"]]
+                e_ = state.get(p_["disk"], {}).get(p_["sub"])
+                hidden = False
+                if p_["what"] == "content differs" and rec_ and e_ is not None and e_[0] == "file":
+                    with open(fs.path(p_["disk"], p_["sub"]), "rb") as fh_:
+                        disk_ = fh_.read()
+                    bs_ = c_pre.blocksize
+                    diff_ = [i_ for i_ in range(len(rec_[0].blocks)) if disk_[i_ * bs_:(i_ + 1) * bs_] != e_[1][i_ * bs_:(i_ + 1) * bs_]]
+                    hidden = len(disk_) == len(e_[1]) and bool(diff_) and all(_dmg.recorded_hash_matches(c_pre, rec_[0], i_, disk_[i_ * bs_:(i_ + 1) * bs_]) for i_ in diff_)
+                if hidden:
+                    res["counters"]["files_with_damage_hidden_by_a_truncated_hash_collision"] = res["counters"].get("files_with_damage_hidden_by_a_truncated_hash_collision", 0) + 1
+                else:
+                    keep.append(p_)
+            probs = keep
+    except Exception:
+        pass
     if retimed:
         res["counters"]["retimed_only_files"] = res["counters"].get("retimed_only_files", 0) + len(retimed)
     if probs:
